@@ -1,3 +1,16 @@
-From Asynq Require Import Machine.
-Theorem C03_placeholder : True. Proof. exact I. Qed.
-Print Assumptions C03_placeholder.
+(* C03 — proved so far (pure): the dependencies the scheduler derives from a yielded structure
+   (extract_futures) are exactly its leaves, and for structures built from lists and tuples only they
+   come in reverse written order, which on the LIFO task stack is what makes tasks that are first
+   scheduled together start in the order written.  Resume-once / termination rest on the
+   correspondence, the monitors and the watchdog. *)
+From Asynq Require Import Prog proofs.ProgProofs.
+
+Theorem C03_dependencies_are_the_yielded_futures : forall (A : Type) (s : ystruct A) (a : A),
+  In a (extract s) <-> In a (leaves s).
+Proof. exact (fun A s a => extract_same_elements s a). Qed.
+Print Assumptions C03_dependencies_are_the_yielded_futures.
+
+Theorem C03_list_tuple_dependencies_in_reverse_written_order : forall (A : Type) (s : ystruct A),
+  dict_free s = true -> extract s = rev (leaves s).
+Proof. exact (fun A s => extract_rev_leaves s). Qed.
+Print Assumptions C03_list_tuple_dependencies_in_reverse_written_order.
